@@ -129,6 +129,9 @@ func runC14(s *kernel.Sim, prod bool) {
 		s.SetYield("handler", 3)
 	}
 	s.SetYield("op", 4)
+	if s.Choose("sched", 3) != 0 {
+		s.Sched = kernel.SchedPriority
+	}
 	cancelRate := []int{0, 0, 30, 120}[s.Choose("cancelRate", 4)]
 
 	s.GoBG("serveA", func() { ra.Serve() })
